@@ -240,8 +240,8 @@ def conditions(prog, fn):
     cn = Canon(prog, fn)
     out = []
     for sw in bool_switches(prog, fn):
-        if len(sw["cond"]) != 1:
-            continue
+        if len(sw["cond"]) != 1 or sw.get("debug_assert"):
+            continue        # a debug_assert! is not a guard: it is absent from release builds
         o = sw["cond"][0]
         c = None
         if o.kind == "bin" and o.data["op"] in ("Gt", "Ge", "Lt", "Le", "Eq", "Ne"):
